@@ -202,12 +202,19 @@ structure EqOut where
   path : String
   trials : Nat := 0
 
+/-- split a flat list into consecutive chunks of length `d` (a trailing incomplete chunk is dropped) -/
+def chunkAux (d : Nat) : Nat → List Bool → List (List Bool)
+  | 0, _ => []
+  | fuel + 1, l => if d = 0 ∨ l.length < d then [] else l.take d :: chunkAux d fuel (l.drop d)
+
+def chunk (d : Nat) (l : List Bool) : List (List Bool) := chunkAux d l.length l
+
 inductive Mode | det | rand | other
   deriving DecidableEq
 
 /-- `is_lc_equivalent(adj1, adj2, mode, seed)`.  `draws`: one list of `np.random.randint(2)` values per trial of
     `_random_checker` (only read in mode `rand` with a solution space of dimension ≥ 5). -/
-def isLcEquivalent (a b : BMat) (mode : Mode) (draws : List (List Bool)) : Except Err EqOut :=
+def isLcEquivalent (a b : BMat) (mode : Mode) (draws : List Bool) : Except Err EqOut :=
   let n := a.r
   if n ≠ b.r then .error .assertion
   else
@@ -243,7 +250,7 @@ def isLcEquivalent (a b : BMat) (mode : Mode) (draws : List (List Bool)) : Excep
                     | .ok s =>
                       if isValidClifford n s then .ok { sol := some s, rank := rank, dim := d, path := "random", trials := k + 1 }
                       else go rest (k + 1)
-                go draws 0
+                go (chunk d draws) 0
               | .det =>
                 match (pairs basis).find? fun p => isValidClifford n (vxor p.1 p.2) with
                 | some p => .ok { sol := some (vxor p.1 p.2), rank := rank, dim := d, path := "pair-sums" }
@@ -324,7 +331,7 @@ def lcGraphOperations (fuel : Nat) (n : Nat) (A : Adj) (v : List Bool) : Except 
     | .ok d => .ok (s ++ d.flatMap fun p => [p.1, p.2, p.1])
 
 /-- `find_lc_operations(adj1, adj2, mode, seed)` — as coded: the R matrix is built from `adj_matrix2` -/
-def findLcOperations (fuel : Nat) (a b : BMat) (mode : Mode) (draws : List (List Bool)) : Except Err (List Nat) :=
+def findLcOperations (fuel : Nat) (a b : BMat) (mode : Mode) (draws : List Bool) : Except Err (List Nat) :=
   match isLcEquivalent a b mode draws with
   | .error e => .error e
   | .ok out =>
